@@ -43,10 +43,46 @@ def r01_1(rep, M, E, rid, fq=GC, param="system"):
     return uses
 
 
+def _cluster_modifies_its_system(M, E):
+    """does any method of Cluster apply a mutator to / store into / hand to a mutating callee the structure it keeps?"""
+    from ..effects import MUTATORS
+    cq = "matid.clustering.cluster.Cluster"
+    init = M.find_method(cq, "__init__")
+    held = {t.attr for s2 in ast.walk(M.func(init)) if isinstance(s2, ast.Assign) and isinstance(s2.value, ast.Name) and s2.value.id == "system"
+            for t in s2.targets if isinstance(t, ast.Attribute) and norm(t.value) == "self"} if init else set()
+    if not held:
+        raise AnalysisError("Cluster.__init__: the attribute that keeps the `system` argument was not found")
+
+    def is_held(e):
+        while isinstance(e, (ast.Subscript, ast.Attribute)) and not (isinstance(e, ast.Attribute) and norm(e.value) == "self"):
+            e = e.value
+        return isinstance(e, ast.Attribute) and norm(e.value) == "self" and e.attr in held
+    for q, d in M.functions().items():
+        if M.enclosing_class(q) != cq:
+            continue
+        for n in ast.walk(d):
+            if isinstance(n, ast.Call) and isinstance(n.func, ast.Attribute) and n.func.attr in MUTATORS and is_held(n.func.value):
+                return q, n
+            if isinstance(n, (ast.Assign, ast.AugAssign)):
+                for t in (n.targets if isinstance(n, ast.Assign) else [n.target]):
+                    if isinstance(t, (ast.Subscript, ast.Attribute)) and not (isinstance(t, ast.Attribute) and norm(t.value) == "self") and is_held(t):
+                        return q, n
+            if isinstance(n, ast.Call):
+                for callee in M.callees_of_call(q, n):
+                    for p2, a in M.bind_args(callee, n).items():
+                        if p2 in E.mut.get(callee, ()) and is_held(a):
+                            return q, n
+    return None
+
+
 def r01_1_escape(rep, M, E, rid):
     if "system" in E.esc[GC] or "system" in E.ret[GC]:
-        rep.violation(rid, "get_clusters: escape of `system`", "the caller's structure itself is stored on the returned clusters "
-                      "(later in-place edits of either side leak into the other)", M.where(GC))
+        hit = _cluster_modifies_its_system(M, E)
+        if hit:
+            rep.violation(rid, "get_clusters: escape of `system`", f"the caller's structure itself is stored on the returned clusters and "
+                          f"{hit[0].split('.')[-1]}() modifies the structure a cluster keeps (`{norm(hit[1])[:50]}`): the caller's atoms change", M.where(GC))
+        else:
+            rep.ok(rid, "get_clusters: the argument is kept by the returned clusters, but no Cluster method modifies the structure it keeps")
     else:
         rep.ok(rid, "get_clusters: the returned clusters reference a private copy, never the argument")
 
@@ -207,15 +243,23 @@ def r01_4(rep, M, rid):
         fq = SBC + "." + name
         fn = M.func(fq)
         fl = Flow(fn)
+        cinit = M.find_method("matid.clustering.cluster.Cluster", "__init__")
+        rewrites = []
         for node in M.own_nodes(fq):
-            if not isinstance(node, ast.Assign):
-                continue
-            for t in node.targets:
-                if isinstance(t, ast.Attribute) and t.attr == "indices":
+            if isinstance(node, ast.Assign):
+                rewrites += [(node, node.value, norm(t.value)) for t in node.targets if isinstance(t, ast.Attribute) and t.attr == "indices"]
+            elif isinstance(node, ast.Call) and cinit in M.callees_of_call(fq, node):
+                # a rebuilt cluster that takes the place of the old one
+                iv = M.bind_args(cinit, node).get("indices")
+                olds = {norm(x.value) for x in ast.walk(iv) if isinstance(x, ast.Attribute) and x.attr == "indices"} if iv is not None else set()
+                if iv is not None:
+                    rewrites.append((node, iv, olds.pop() if len(olds) == 1 else "<none>"))
+        for node, value, recv in rewrites:
+            if True:
+                if True:
                     n += 1
-                    recv = norm(t.value)
                     at = fl.node_of(node)
-                    sl = fl.slice(node.value, at)
+                    sl = fl.slice(value, at)
                     reads_old = any(isinstance(x, ast.Attribute) and x.attr == "indices" and norm(x.value) == recv
                                     for e in sl["exprs"] for x in ast.walk(e))
                     other = [norm(x) for e in sl["exprs"] for x in ast.walk(e) if isinstance(x, ast.Attribute)
@@ -501,13 +545,29 @@ def r01_8(rep, M, rid):
     else:
         rep.violation(rid, "_clean_clusters: clustering call", f"`{norm(call)[:90]}`: own matrix {m_ok}, bond_threshold {thr_ok}, "
                       f"min_samples=1 {ms_ok}", M.where(fq, call))
-    if not stores:
-        rep.violation(rid, "_clean_clusters: index rewrite", "dangling atoms are never removed (no store to cluster.indices)", M.where(fq))
+    # a rewrite is either `cluster.indices = <selection>` or a new Cluster(<selection>, ...) that takes the place of the old one
+    rewrites = [(s, s.value, norm(next(t for t in s.targets if isinstance(t, ast.Attribute)).value)) for s in stores]
+    cinit = M.find_method("matid.clustering.cluster.Cluster", "__init__")
+    for c2 in [c for c in M.own_nodes(fq) if isinstance(c, ast.Call) and cinit in M.callees_of_call(fq, c)]:
+        iv = M.bind_args(cinit, c2).get("indices")
+        olds = {norm(x.value) for x in ast.walk(iv) if isinstance(x, ast.Attribute) and x.attr == "indices"} if iv is not None else set()
+        if iv is not None and len(olds) == 1:
+            rewrites.append((c2, iv, olds.pop()))
+    inplace = [n for n in M.own_nodes(fq) if (isinstance(n, ast.Delete) and any(isinstance(x, ast.Attribute) and x.attr == "indices" for t2 in n.targets for x in ast.walk(t2)))
+               or (isinstance(n, ast.Call) and isinstance(n.func, ast.Attribute) and n.func.attr in ("pop", "remove", "clear") and isinstance(n.func.value, ast.Attribute)
+                   and n.func.value.attr == "indices")]
+    if not rewrites and inplace:
+        raise AnalysisError(f"_clean_clusters: atoms are removed from the index list in place (`{norm(inplace[0])[:60]}`): idiom not modelled")
+    if not rewrites:
+        rep.violation(rid, "_clean_clusters: index rewrite", "dangling atoms are never removed (no store to cluster.indices, no cluster rebuilt "
+                      "from a selection of its indices)", M.where(fq))
         return
-    for s in stores:
+    for s, v, recvn0 in rewrites:
         at2 = fl.node_of(s)
-        t = next(t for t in s.targets if isinstance(t, ast.Attribute))
-        v = s.value
+
+        class _T:      # the object whose indices are rewritten
+            value = ast.parse(recvn0, mode="eval").body
+        t = _T
         # strip .tolist() / list()
         while isinstance(v, ast.Call) and ((isinstance(v.func, ast.Attribute) and v.func.attr == "tolist") or
                                            (isinstance(v.func, ast.Name) and v.func.id == "list" and v.args)):
@@ -544,9 +604,10 @@ def r01_8(rep, M, rid):
                           M.where(fq, s))
 
 
-def r01_8_components(rep, M, rid):
+def r01_8_components(rep, M, rid, shortcut=True):
     """matid.geometry.get_clusters: every returned grouping comes from the DBSCAN labels (no shortcut that could report an empty
-    or unclustered group; an empty matrix makes DBSCAN raise, which is how emptied clusters are dropped)"""
+    or unclustered group; an empty matrix makes DBSCAN raise, which is how emptied clusters are dropped).
+    shortcut=False: the borrowing property never clusters an empty matrix; only the partition clause is borrowed"""
     fq = GEO + ".get_clusters"
     fn = M.func(fq)
     fl = Flow(fn)
@@ -554,8 +615,10 @@ def r01_8_components(rep, M, rid):
         isinstance(c, ast.Call) and isinstance(c.func, ast.Attribute) and c.func.attr in ("fit", "fit_predict") for c in walk_own(d["ast"]))]
     if not fits:
         raise AnalysisError("geometry.get_clusters: DBSCAN fit not found")
-    bad = [r for r in fl.cfg.returns if not fl.cfg.all_paths_pass(fl.cfg.entry, r, fits)]
-    if bad:
+    bad = [r for r in fl.cfg.returns if not fl.cfg.all_paths_pass(fl.cfg.entry, r, fits)] if shortcut else []
+    if not shortcut:
+        pass
+    elif bad:
         rs = fl.cfg.stmt(bad[0])
         rep.violation(rid, f"geometry.get_clusters: `{norm(rs)[:60]}`", "a path returns groups without running the clustering: for an empty distance matrix "
                       "(a cluster emptied by overlap resolution) a group is reported instead of the failure that makes the caller drop the cluster, so "
@@ -677,13 +740,23 @@ def r01_9(rep, M, rid, cluster_context=False):
 
 
 # ----------------------------------------------------------------------------- call-local instance state
-def call_local_state(rep, M, rid, fq, allowed_config=()):
+def call_local_state(rep, M, rid, fq, allowed_config=(), generators_exempt=False):
     """a method that must be a function of its arguments may read self.<attr> only if the same call wrote it on every
-    path before (or the attribute is pure configuration set in __init__ and never written here)"""
+    path before (or the attribute is pure configuration set in __init__ and never written here).
+    generators_exempt: the borrowing property holds "for any seed", i.e. for every random stream, so a generator that is carried over
+    between calls only selects another admissible stream"""
     fn = M.func(fq)
     fl = Flow(fn)
     cq = M.enclosing_class(fq)
     written = {}
+    gen_attrs = set()
+    if generators_exempt:
+        vals = {}
+        for s2 in ast.walk(fn):
+            if isinstance(s2, ast.Assign) and len(s2.targets) == 1 and isinstance(s2.targets[0], ast.Attribute) and norm(s2.targets[0].value) == "self":
+                vals.setdefault(s2.targets[0].attr, []).append(s2.value)
+        gen_attrs = {a for a, vs in vals.items() if vs and all(isinstance(v, ast.Call) and (M.ext_name(fq, v.func) or "").startswith(("numpy.random.", "random."))
+                                                               for v in vs)}
     for n, d in fl.cfg.g.nodes(data=True):
         s2 = d["ast"]
         if isinstance(s2, (ast.Assign, ast.AugAssign)):
@@ -715,6 +788,15 @@ def call_local_state(rep, M, rid, fq, allowed_config=()):
             nread += 1
             if attr in allowed_config and attr not in written:
                 continue
+            if attr in gen_attrs:
+                continue
+            if gen_attrs:
+                # state that only decides whether the generator is re-created (`if self._seed != seed: self._seed = seed; self.rng = ...`)
+                guards = [t for t in ast.walk(fn) if isinstance(t, ast.If) and any(y is x for y in ast.walk(t.test))]
+                if guards and all(isinstance(b, ast.Assign) and len(b.targets) == 1 and isinstance(b.targets[0], ast.Attribute)
+                                  and norm(b.targets[0].value) == "self" and b.targets[0].attr in gen_attrs | {attr}
+                                  for t in guards for b in t.body + t.orelse):
+                    continue
             w = [m for m in written.get(attr, []) if m != n]
             if w and fl.cfg.all_paths_pass(fl.cfg.entry, n, w):
                 continue
@@ -943,7 +1025,7 @@ def run(rep, ctx):
                        "cleaning / parameter forwarding, literal pbc of prototype cells, signature conformance")
     rep.assumptions = ["disjointness and connectivity of the returned clusters for concrete inputs are not decided",
                        "numpy/ASE API tables of vstatic.effects; CPython hashing of ints is deterministic"]
-    rep.rule("R01.1", "the caller's structure is never mutated and never stored on the result")
+    rep.rule("R01.1", "the caller's structure is never mutated, neither by get_clusters nor through a returned cluster that keeps it")
     rep.rule("R01.2", "no nondeterminism source reachable; the generator is built from `seed`")
     rep.rule("R01.3", "every path runs merge -> localize -> clean in this order, each on the previous result, and returns the last")
     rep.rule("R01.4", "after merging, index rewrites only shrink a cluster")
